@@ -77,6 +77,9 @@ func TestCalibrate(t *testing.T) {
 				t.Fatalf("%s: %v", sc.name, err)
 			}
 			wall += res.wall
+			if i == 0 {
+				checkRecipientFreshness(t, "Calibrate", sc, res.log, caseParams{sc: sc})
+			}
 			w := wireMultiset(res.log)
 			outs, firsts, c := map[proto.ID][]byte{}, map[proto.ID][]byte{}, map[proto.ID]uint64{}
 			for _, id := range sc.parties {
@@ -111,4 +114,15 @@ func TestCalibrate(t *testing.T) {
 		fmt.Printf("CALIBRATION\t%q: {sequential: %v, firstDet: %v, consDet: %v},\t// %d runs, %.0f ms/run, bytes %v\n",
 			sc.name, seq, first, cons, n, float64(wall.Milliseconds())/float64(n), refCons)
 	}
+}
+
+// mayRepeatList: places (scenario|round|leaf class) at which the unchanged tree gives two recipients
+// of one sender's unicasts the same >= 16-byte value - public values the protocols repeat
+// deliberately. Measured with C07_CALIBRATE (MAYREPEAT lines) on /repo 043d51a.
+var mayRepeatList = []string{
+	// CNF (replicated) sharing: the component belonging to one maximal unqualified set is given to
+	// EVERY holder outside that set, so two recipients legitimately receive the same component
+	"gennaro-cnf3-ed25519|GennaroDKGRound1|/share/blinding/*/r/fieldBytes",
+	"gennaro-cnf3-ed25519|GennaroDKGRound1|/share/secret/*/m/fieldBytes",
+	"canetti-cnf3-ed25519|BRON_CRYPTO_DKG_CANETTI_R2|/Share/value/*/fieldBytes",
 }
